@@ -147,7 +147,9 @@ fn is_stream(e: &DecodeError) -> bool {
 
 /// Runs the script against the real Decoder and the model.
 pub fn check_script(s: &Script, st: &mut Stats) -> R {
-    let buf = &s.buf;
+    // the buffer is handed over at an address congruent to 0..3 mod 4 (derived from its contents)
+    let shifted = crate::rs::Shifted::new(&s.buf);
+    let buf = shifted.bytes();
     let len = buf.len();
     let dec = || s.render();
     let mut d = Decoder::new(buf);
